@@ -3,6 +3,8 @@ import RV.Gen.C18LayoutC
 import RV.Gen.C18LayoutPy
 import RV.Gen.C18Options
 import RV.Gen.C18Ref
+import RV.Gen.C18Protos
+import RV.Gen.C18Descr
 /-
   drv_c18 — runs the same matcher the theorems of RV/Props/C18.lean decide, natively, on the
   generated tables, and prints one line per class / option family / obligation so that a
@@ -59,6 +61,28 @@ def main : IO Unit := do
     out.putStrLn s!"FNOPT\t{r.1.str}\t{r.2.1.str}\t{r.2.2.1.str}\t{r.2.2.2.str}\t{if fnOptOk cTab cFunctions fnOptMap r then "ok" else "BAD"}"
   for s in pyShadowed do
     out.putStrLn s!"SHADOW\t{s.1.str}\t{s.2.str}\t{b2s (memPair s.1 s.2 knownShadowExceptions)}"
+  for p in pyCallbacks do
+    out.putStrLn s!"CALLBACK\t{p.owner.str}\t{p.field.str}\t{if callbackOk tables cCallbacks p then "ok" else "BAD"}"
+  for d in pyRestypeDecls do
+    out.putStrLn s!"RESTYPE\t{d.fn.str}\t{d.site.str}\t{if declOk classMap cProtos d then "ok" else "BAD"}"
+  for a in pyOtherFnAttrs do
+    out.putStrLn s!"FNATTR\t{a.1.str}\t{a.2.1.str}\t{a.2.2.str}\t{b2s (memPair a.1 a.2.1 knownCallExceptions)}"
+  for c in pyCalls do
+    match callWhy classMap cProtos c with
+    | none => pure ()
+    | some w => out.putStrLn s!"CALL\t{c.fn.str}\t{c.site.str}\tBAD\t{w.str}\t{b2s (memPair c.fn c.site knownCallExceptions)}"
+  if !descrListEq pyDescriptors cDescriptors then
+    out.putStrLn s!"DESCR\tpython list ({pyDescriptors.length} entries) differs from the C array ({cDescriptors.length} entries)"
+  for w in pyWarnings do
+    if !warnOk (itemsOf n!"reb_simulation_binary_error_codes" cEnumRows) warnKeywords w then
+      out.putStrLn s!"WARN\tBINARY_WARNINGS row {w.2.1} does not match the C error codes"
+  for e in classMap do
+    if !classEnumFieldsOk tables cEnumRows e then
+      out.putStrLn s!"ENUMFIELD\ta field of {e.1.str} cannot represent every enumerator of the C enumeration it lies over"
+  out.putStrLn s!"COUNT\tprotos\t{cProtos.length}\t{floorProtos}"
+  out.putStrLn s!"COUNT\tcallbacks\t{pyCallbacks.length}\t{floorCallbacks}"
+  out.putStrLn s!"COUNT\trestype_decls\t{pyRestypeDecls.length}\t{floorRestypeDecls}"
+  out.putStrLn s!"COUNT\tcalls\t{pyCalls.length}\t{floorCalls}"
   out.putStrLn s!"COUNT\tclasses\t{pyTab.length}\t{floorClasses}"
   out.putStrLn s!"COUNT\tpy_rows\t{rowsOf pyTab}\t{floorPyRows}"
   out.putStrLn s!"COUNT\tc_rows\t{rowsOf cTab}\t{floorCRows}"
